@@ -23,6 +23,10 @@ pub fn apply_env_b(t: &Trace) -> Trace {
             tb.header.hashers = b.hashers.clone();
         }
         tb.alloc = b.alloc;
+        if let Some(c) = b.rs_ctor {
+            tb.header.random_state = true;
+            tb.header.ctor = c;
+        }
         if b.strip_rehash {
             tb.events.retain(|e| e.op.code != Code::Rehash);
         }
